@@ -294,11 +294,39 @@ def r13_5(ctx):
     ctx.floor("R13.5", 1)
 
 
+def r13_6(ctx):
+    """The state a chunked solve restarts from is the last reported output.  It continues the one-shot solve bit for bit
+    only if what is reported is the loop state itself: a list of the states stacked at the end keeps them as they are,
+    whereas a preallocated output tensor of a *fixed* dtype converts every write to that dtype -- with a float32 y0 and
+    float64 coefficients or Brownian motion the loop state is float64 from the first step on, and the reported state is
+    a rounded copy of it."""
+    from . import integrate_kit as ik
+    rep, model = ctx.rep, ctx.model
+    rep.rule("R13.6", "the reported outputs are the loop states themselves (no conversion to a fixed dtype on the way out)")
+    fi, prologue, for_node, while_node, tail, epilogue = ik.loop_structure(model)
+    rep.analysed(fi)
+    p, _ = ik.run_body(model, False, prologue, {})
+    ys = p.env.get("ys")
+    construct = f"{fi.key}::R13.6::outputs-unconverted"
+    if ik.is_output_buffer(ys):
+        dt = ys.attrs.get("dtype")
+        rep.check(dt is None, "R13.6", astq.loc(fi), construct,
+                  f"the outputs are written into a tensor preallocated with dtype `{dt}`: every write converts the loop state "
+                  f"to that dtype, so with mixed precision (float32 y0, float64 coefficients or Brownian motion) the state "
+                  f"handed back -- and a solve restarted from it -- is a rounded copy of the one-shot solve's loop state",
+                  "outputs keep the loop state's dtype")
+    else:
+        rep.check(isinstance(ys, list), "R13.6", astq.loc(fi), construct,
+                  f"the outputs are collected in `{ys!r}`, neither a list nor a recognised output tensor", "list of loop states")
+    ctx.floor("R13.6", 1)
+
+
 def run(ctx):
     ctx.guard(r13_1)
     ctx.guard(r13_2)
     ctx.guard(r13_4)
     ctx.guard(r13_5)
+    ctx.guard(r13_6)
     # restart from the *reported* final state: the value reported at a step end must be the solver's own state bit for
     # bit (float-exact reduction of the interpolation formula at its end point; rule of C12)
     from . import c12
